@@ -313,22 +313,33 @@ def check(pid, tier, seed, update_expected=False):
                 try:
                     d, dst = kanirun.make_scratch(REPO, files=(P.get('kani') or {}).get('files'))
                     try:
-                        r = kanirun.run_kani(dst, pairs, jobs=8)
-                        for h in pairs:
-                            hr = r['harness'].get(h)
-                            st = hr['status'] if hr else None
-                            fl['pair_results'].append({'harness': h, 'status': st})
-                            if st == 'FAILED' and found is None:
-                                pb = kanirun.playback(dst, h)
-                                if pb and pb.get('native_failed'):
-                                    found = {'harness': h, 'playback': pb, 'failed_checks': hr['failed_checks'][:4]}
+                        # a pair harness runs in the feature configuration of the group that registers it
+                        def nd_of(h):
+                            for g in (P.get('kani') or {}).get('groups', []):
+                                if h in g.get('quick', []) or h in g.get('thorough', []):
+                                    return bool(g.get('no_default'))
+                            return False
+                        for nd in (False, True):
+                            hs_ = [h for h in pairs if nd_of(h) == nd]
+                            # a harness of the other feature configuration cannot witness a failure of this one
+                            if not hs_ or (nd and fl.get('cfg') == 'default') or (not nd and fl.get('cfg') == 'nobatch'):
+                                continue
+                            r = kanirun.run_kani(dst, hs_, jobs=8, no_default=nd, timeout=900)
+                            for h in hs_:
+                                hr = r['harness'].get(h)
+                                st = hr['status'] if hr else None
+                                fl['pair_results'].append({'harness': h, 'status': st, 'no_default': nd})
+                                if st == 'FAILED' and found is None:
+                                    pb = kanirun.playback(dst, h, no_default=nd)
+                                    if pb and pb.get('native_failed'):
+                                        found = {'harness': h, 'playback': pb, 'failed_checks': hr['failed_checks'][:4]}
                     finally:
                         kanirun.cleanup(d)
                 except extract.Undecided:
                     pass
             fl['found'] = found
             complete = any(re.search(p, fl['fn']) for p in P.get('complete_pairs', []))
-            if found is None and pairs and not have_kani_input and complete and all(x.get('status') == 'SUCCESSFUL' for x in fl['pair_results']):
+            if found is None and pairs and not have_kani_input and complete and fl['pair_results'] and all(x.get('status') == 'SUCCESSFUL' for x in fl['pair_results']):
                 return undecided(pid, tier, seed, t0, 'verus obligation %s fails but its complete Kani pair passes over the same domain '
                                  '(proof brittleness, not a violation)' % fl['id'], json.dumps(fl['detail'], indent=1, default=str))
             violations.append(fl)
